@@ -833,6 +833,8 @@ theorem getProperty_literal (seq : List Item) (name : Cps) :
 deletion, text replacement; `setReadonly` flips the block's read-only flag -/
 inductive Op
   | set (name : Cps) (value : Option Cps) (prio : Cps) (repl : Bool)
+  /-- `setProperty(name, value, priority, normalize=False, replace)` -/
+  | setLit (name : Cps) (value : Option Cps) (prio : Cps) (repl : Bool)
   | setItem (name : Cps) (value : Option Cps) (prio : Option Cps)
   | remove (name : Cps) (norm : Bool)
   | delItem (name : Cps)
@@ -850,6 +852,7 @@ def withMode (env : Env) (r : Bool) : Env := { env with raising := r }
 def step (env : Env) (d : Decl) (c : Call) : Res (Option Cps) :=
   match c.op with
   | .set n v p repl => setProperty (withMode env c.raising) d n v p true repl
+  | .setLit n v p repl => setProperty (withMode env c.raising) d n v p false repl
   | .setItem n v p => setItem (withMode env c.raising) d n v p
   | .remove n norm => ⟨(removeProperty d n norm).st, (removeProperty d n norm).out.map some⟩
   | .delItem n => ⟨(delItem d n).st, (delItem d n).out.map some⟩
@@ -902,6 +905,29 @@ def specSet (env : Env) (s : Spec) (name : Cps) (value : Option Cps) (prio : Cps
           | .error e => ⟨s, .error e⟩
           | .ok _ => ⟨s, .ok none⟩
 
+/-- `normalize=False`: an update modifies the LAST entry with that literal name in place (not the effective one among
+them); otherwise (or with `replace=False`) the new entry is appended; an empty value removes by normalised name -/
+def specSetLit (env : Env) (s : Spec) (name : Cps) (value : Option Cps) (prio : Cps) (repl : Bool) : SRes :=
+  if s.readonly then ⟨s, .error .noModification⟩
+  else
+    match value with
+    | none => specRemove s name true
+    | some [] => specRemove s name true
+    | some v =>
+      match mkProperty env name v prio with
+      | .error e => ⟨s, .error e⟩
+      | .ok newp =>
+        if newp.wf then
+          match (if repl then lastP (fun q => q.lit == name) s.ps else none) with
+          | some p =>
+            ⟨{ s with ps := updLast (fun q => q.lit == name) (fun q => (updateProp env q newp).p) s.ps },
+             match (updateProp env p newp).err with | some e => .error e | none => .ok none⟩
+          | none => ⟨{ s with ps := s.ps ++ [newp] }, .ok none⟩
+        else
+          match logCall env with
+          | .error e => ⟨s, .error e⟩
+          | .ok _ => ⟨s, .ok none⟩
+
 def specSrcStep (env : Env) (acc : List Pty) : SrcItem → Except Err (List Pty)
   | .decl n v p => do
     let pr ← propFromDecl env n v p
@@ -923,6 +949,7 @@ def specText (env : Env) (s : Spec) (items : List SrcItem) : SRes :=
 def specStep (env : Env) (s : Spec) (c : Call) : SRes :=
   match c.op with
   | .set n v p repl => specSet (withMode env c.raising) s n v p repl
+  | .setLit n v p repl => specSetLit (withMode env c.raising) s n v p repl
   | .setItem n v p => specSet (withMode env c.raising) s n v (p.getD []) true
   | .remove n norm => specRemove s n norm
   | .delItem n => specRemove s n true
@@ -1285,6 +1312,225 @@ theorem set_refines (env : Env) (d : Decl) (name : Cps) (value : Option Cps) (pr
                   show NameInvP (props (d.seq.set i (Item.prop (updateProp env p newp).p)))
                   rw [hset.1]
                   exact nameInvP_updEffective _ _ _ h (fun a => updateProp_frame env a newp)
+          · simp only [hw, Bool.false_eq_true, if_false]
+            cases logCall env with
+            | error e => exact ⟨rfl, rfl, h, rfl⟩
+            | ok u => exact ⟨rfl, rfl, h, rfl⟩
+
+/-! ### `getProperties(name, all=True)` and `setProperty(normalize=False)` -/
+
+theorem snoc_induction {α : Type} {P : List α → Prop} (hnil : P [])
+    (hsnoc : ∀ (a : List α) (x : α), P a → P (a ++ [x])) (l : List α) : P l := by
+  have key : ∀ r : List α, P r.reverse := by
+    intro r
+    induction r with
+    | nil => exact hnil
+    | cons x t ih => rw [List.reverse_cons]; exact hsnoc _ _ ih
+  have := key l.reverse
+  rwa [List.reverse_reverse] at this
+
+theorem propIdxs_append (q : Pty → Bool) (a b : List Item) (i : Nat) :
+    propIdxs q (a ++ b) i = propIdxs q a i ++ propIdxs q b (i + a.length) := by
+  induction a generalizing i with
+  | nil => simp [propIdxs]
+  | cons x t ih =>
+    have e : i + (t.length + 1) = i + 1 + t.length := by omega
+    cases x with
+    | prop p => by_cases hq : q p = true <;> simp [propIdxs, hq, ih, e]
+    | comment c => simp [propIdxs, ih, e]
+    | other c => simp [propIdxs, ih, e]
+
+theorem propIdxs_lt (q : Pty → Bool) (l : List Item) (i j : Nat) (h : j ∈ propIdxs q l i) : j < i + l.length := by
+  induction l generalizing i with
+  | nil => simp [propIdxs] at h
+  | cons x t ih =>
+    have step : j ∈ propIdxs q t (i + 1) → j < i + (t.length + 1) := fun hm => by have := ih (i + 1) hm; omega
+    cases x with
+    | prop p =>
+      by_cases hq : q p = true
+      · simp only [propIdxs, hq, if_true, List.mem_cons] at h
+        rcases h with h | h
+        · subst h; simp
+        · exact step h
+      · simp only [propIdxs, hq] at h; exact step h
+    | comment c => simp only [propIdxs] at h; exact step h
+    | other c => simp only [propIdxs] at h; exact step h
+
+theorem propAt_append_left (a b : List Item) (j : Nat) (h : j < a.length) : propAt (a ++ b) j = propAt a j := by
+  unfold propAt
+  rw [List.getElem?_append_left h]
+
+theorem propAt_append_single (a : List Item) (x : Item) : propAt (a ++ [x]) a.length = propAt [x] 0 := by
+  unfold propAt
+  simp
+
+/-- the entries `getProperties(name, all=True)` returns: all entries selected by `q`, in order -/
+theorem propIdxs_propAt (q : Pty → Bool) (seq : List Item) :
+    (propIdxs q seq 0).map (propAt seq) = ((props seq).filter q).map some := by
+  induction seq using snoc_induction with
+  | hnil => rfl
+  | hsnoc a x ih =>
+    rw [propIdxs_append, List.map_append, props_append, List.filter_append, List.map_append]
+    congr 1
+    · rw [← ih]
+      apply List.map_congr_left
+      intro j hj
+      have := propIdxs_lt q a 0 j hj
+      exact propAt_append_left a [x] j (by omega)
+    · cases x with
+      | prop p =>
+        by_cases hq : q p = true
+        · simp [propIdxs, hq, props, propAt_append_single, propAt]
+        · simp [propIdxs, hq, props]
+      | comment c => simp [propIdxs, props]
+      | other c => simp [propIdxs, props]
+
+theorem updTarget_ext (seq seq' : List Item) (nn name : Cps) (norm : Bool) (l : List (Option Nat))
+    (h : ∀ j, some j ∈ l → propAt seq' j = propAt seq j) :
+    updTarget seq' nn name norm l = updTarget seq nn name norm l := by
+  induction l with
+  | nil => rfl
+  | cons o t ih =>
+    cases o with
+    | none => rfl
+    | some j =>
+      have hj := h j (by simp)
+      have ht := ih (fun k hk => h k (by simp [hk]))
+      simp only [updTarget, hj, ht]
+
+/-- the update loop of `setProperty(normalize=False)`: the last entry selected by `q` whose literal name is `name` -/
+theorem updTarget_lit (q : Pty → Bool) (seq : List Item) (nn name : Cps) :
+    updTarget seq nn name false ((propIdxs q seq 0).map some).reverse =
+      .ok (lastIdx (liftQ (fun p => q p && p.lit == name)) seq) := by
+  induction seq using snoc_induction with
+  | hnil => rfl
+  | hsnoc a x ih =>
+    rw [propIdxs_append, List.map_append, List.reverse_append, lastIdx_append_single]
+    have hrest : updTarget (a ++ [x]) nn name false ((propIdxs q a 0).map some).reverse =
+        .ok (lastIdx (liftQ (fun p => q p && p.lit == name)) a) := by
+      rw [← ih]
+      apply updTarget_ext
+      intro j hj
+      have hj' : j ∈ propIdxs q a 0 := by simpa using hj
+      have := propIdxs_lt q a 0 j hj'
+      exact propAt_append_left a [x] j (by omega)
+    cases x with
+    | prop p =>
+      by_cases hq : q p = true
+      · have hpa : propAt (a ++ [Item.prop p]) a.length = some p := by
+          rw [propAt_append_single]; rfl
+        simp only [propIdxs, hq, if_true, Nat.zero_add, List.map_cons, List.map_nil, List.reverse_cons,
+          List.reverse_nil, List.nil_append, List.singleton_append, updTarget, hpa,
+          liftQ, Bool.true_and, Bool.false_and, Bool.false_or]
+        by_cases hl : (p.lit == name) = true
+        · simp [hl]
+        · simp only [hl, Bool.false_eq_true, if_false]; exact hrest
+      · simp only [propIdxs, hq, Bool.false_eq_true, if_false, List.map_nil, List.reverse_nil, List.nil_append,
+          liftQ, Bool.false_and]
+        exact hrest
+    | comment c => simp only [propIdxs, List.map_nil, List.reverse_nil, List.nil_append, liftQ, Bool.false_eq_true, if_false]; exact hrest
+    | other c => simp only [propIdxs, List.map_nil, List.reverse_nil, List.nil_append, liftQ, Bool.false_eq_true, if_false]; exact hrest
+
+/-- under the name invariant the entries with the literal name `name` are among those with the normalised name -/
+theorem litSel_congr (seq : List Item) (name : Cps) (h : NameInv seq) :
+    ∀ a ∈ props seq, ((normalize name == [] || a.name == normalize name) && a.lit == name) = (a.lit == name) := by
+  intro a ha
+  by_cases hl : a.lit = name
+  · have := h a ha
+    rw [hl] at this
+    simp [hl, this]
+  · simp [hl]
+
+theorem lastIdx_congr_props (q q' : Pty → Bool) (seq : List Item) (h : ∀ a ∈ props seq, q a = q' a) :
+    lastIdx (liftQ q) seq = lastIdx (liftQ q') seq := by
+  apply lastIdx_congr
+  intro it hit
+  cases it with
+  | prop p =>
+    have : p ∈ props seq := by
+      clear h
+      induction seq with
+      | nil => cases hit
+      | cons x t ih =>
+        simp only [List.mem_cons] at hit
+        rcases hit with hx | hx
+        · subst hx; simp [props]
+        · cases x <;> simp [props, ih hx]
+    simpa [liftQ] using h p this
+  | comment c => rfl
+  | other c => rfl
+
+theorem setLit_refines (env : Env) (d : Decl) (name : Cps) (value : Option Cps) (prio : Cps) (repl : Bool)
+    (h : NameInv d.seq) :
+    absD (setProperty env d name value prio false repl).st = (specSetLit env (absD d) name value prio repl).st ∧
+    (setProperty env d name value prio false repl).out = (specSetLit env (absD d) name value prio repl).out ∧
+    NameInv (setProperty env d name value prio false repl).st.seq ∧
+    nonProps (setProperty env d name value prio false repl).st.seq = nonProps d.seq := by
+  have hrm := remove_refines d name true h
+  have hrn := remove_nameInv d name true h
+  have hrp := remove_nonProps d name true
+  unfold setProperty specSetLit
+  by_cases hr : d.readonly = true
+  · simp only [absD, hr, if_true]; exact ⟨trivial, trivial, h, trivial⟩
+  · have hr' : (absD d).readonly = false := by simpa [absD] using hr
+    simp only [hr, hr', Bool.false_eq_true, if_false]
+    cases value with
+    | none => exact ⟨hrm.1, hrm.2, hrn, hrp⟩
+    | some v =>
+      cases v with
+      | nil => exact ⟨hrm.1, hrm.2, hrn, hrp⟩
+      | cons c cs =>
+        simp only []
+        cases hmk : mkProperty env name (c :: cs) prio with
+        | error e => exact ⟨rfl, rfl, h, rfl⟩
+        | ok newp =>
+          simp only []
+          by_cases hw : newp.wf = true
+          · simp only [hw, if_true]
+            have hnm := mkProperty_names env name (c :: cs) prio newp hmk
+            have happ : NameInv (d.seq ++ [Item.prop newp]) := by
+              intro q hq
+              rw [props_append] at hq
+              simp only [props, List.mem_append, List.mem_singleton] at hq
+              rcases hq with hq | hq
+              · exact h q hq
+              · subst hq; exact hnm
+            have happ2 : nonProps (d.seq ++ [Item.prop newp]) = nonProps d.seq := by
+              rw [nonProps_append]; simp [nonProps]
+            cases repl with
+            | false =>
+              simp only [Bool.false_eq_true, if_false, absD, props_append, props]
+              refine ⟨?_, ?_, happ, happ2⟩ <;> first | rfl | trivial
+            | true =>
+              simp only [if_true, Bool.not_false]
+              have hgp : getPropertiesIdx d.seq name true =
+                  (propIdxs (fun p => normalize name == [] || p.name == normalize name) d.seq 0).map some := by
+                simp [getPropertiesIdx]
+              rw [hgp, updTarget_lit,
+                lastIdx_congr_props _ (fun q => q.lit == name) d.seq (litSel_congr d.seq name h)]
+              have hlp := lastIdx_lastP (fun q => q.lit == name) d.seq
+              simp only [absD]
+              rw [← hlp]
+              cases hi : lastIdx (liftQ (fun q => q.lit == name)) d.seq with
+              | none =>
+                simp only [Option.bind_none, props_append, props]
+                refine ⟨?_, ?_, happ, happ2⟩ <;> first | rfl | trivial
+              | some i =>
+                obtain ⟨p, hp, _⟩ := lastIdx_liftQ_propAt _ _ _ hi
+                simp only [Option.bind_some, hp]
+                have hset := set_lastIdx (liftQ (fun q => q.lit == name))
+                  (liftF (fun q => (updateProp env q newp).p)) d.seq i (.prop p) hi (propAt_some d.seq i p hp)
+                simp only [liftF] at hset
+                refine ⟨?_, rfl, ?_, ?_⟩
+                · rw [hset, props_updLast]
+                · unfold NameInv
+                  rw [hset, props_updLast]
+                  intro x hx
+                  rcases mem_updLast _ _ _ x hx with h1 | ⟨a, ha, hxa⟩
+                  · exact h x h1
+                  · subst hxa
+                    rw [(updateProp_frame env a newp).1, (updateProp_frame env a newp).2]; exact h a ha
+                · rw [hset]; exact nonProps_updLast _ _ _
           · simp only [hw, Bool.false_eq_true, if_false]
             cases logCall env with
             | error e => exact ⟨rfl, rfl, h, rfl⟩
@@ -1733,6 +1979,74 @@ theorem vReported_direct (s : Vars) (hn : (dkeys s.vars).Nodup) (hk : KeysStable
   intro e he
   have h1 : normalize e.1 = e.1 := hk e.1 (List.mem_map_of_mem he)
   simp only [Function.comp, vGet, h1, dictGet_of_mem s.vars e hn he]
+
+/-! ### looking a listed key up by a literal spelling of it -/
+
+theorem unesc_requote (k : Cps) : unesc (requote k) = k := by
+  induction k with
+  | nil => rfl
+  | cons c t ih =>
+    by_cases hc : c = 92
+    · subst hc
+      simp [requote, unesc, isHex, ih]
+    · have hb : (c == 92) = false := beq_eq_false_iff_ne.mpr hc
+      simp only [requote, hb, Bool.false_eq_true, if_false]
+      cases hr : requote t with
+      | nil =>
+        rw [hr] at ih
+        simp only [unesc] at ih
+        rw [← ih]; rfl
+      | cons d r =>
+        rw [hr] at ih
+        simp only [unesc, hb, Bool.false_and, Bool.false_eq_true, if_false, ih]
+
+theorem lowerCp_idem (c : Nat) : lowerCp (lowerCp c) = lowerCp c := by
+  unfold lowerCp isUpper
+  by_cases h : (65 ≤ c && c ≤ 90) = true
+  · have h' := h
+    simp only [Bool.and_eq_true, decide_eq_true_eq] at h'
+    have h2 : (65 ≤ c + 32 && c + 32 ≤ 90) = false := by
+      rw [← Bool.not_eq_true]
+      simp only [Bool.and_eq_true, decide_eq_true_eq]; omega
+    rw [if_pos h, h2]
+    simp
+  · rw [if_neg h, if_neg h]
+
+theorem lower_idem (s : Cps) : lower (lower s) = lower s := by
+  unfold lower
+  rw [List.map_map]
+  apply List.map_congr_left
+  intro c _
+  exact lowerCp_idem c
+
+/-- `normalize(requote(k)) == k` for every normalised name `k` — also when `k` itself is not a fixpoint of `normalize` -/
+theorem normalize_requote (n : Cps) : normalize (requote (normalize n)) = normalize n := by
+  unfold normalize
+  rw [unesc_requote, lower_idem]
+
+theorem varsOf_keys_normal (seq : List VItem) : ∀ e ∈ varsOf seq, ∃ n, e.1 = normalize n := by
+  induction seq with
+  | nil => intro e he; simp [varsOf] at he
+  | cons x t ih =>
+    intro e he
+    cases x with
+    | var n v =>
+      simp only [varsOf, List.mem_cons] at he
+      rcases he with he | he
+      · exact ⟨n, by rw [he]⟩
+      · exact ih e he
+    | other c => exact ih e (by simpa [varsOf] using he)
+
+/-- under the invariant, looking every listed key up by its literal spelling reports exactly the serialisation -/
+theorem vReportedQ_eq (s : Vars) (h : VInv s) : vReportedQ s = vSerialized s := by
+  rw [vSerialized_eq, ← h.1]
+  unfold vReportedQ vKeys
+  rw [List.map_map]
+  apply List.map_congr_left
+  intro e he
+  obtain ⟨n, hn⟩ := varsOf_keys_normal s.seq e (by rw [← h.1]; exact he)
+  have h1 : normalize (requote e.1) = e.1 := by rw [hn]; exact normalize_requote n
+  simp only [Function.comp, vGet, h1, dictGet_of_mem s.vars e h.2 he]
 
 theorem dkeys_dictSet_subset (d : List (Cps × Val)) (k : Cps) (v : Val) (a : Cps) (h : a ∈ dkeys (dictSet d k v)) :
     a = k ∨ a ∈ dkeys d := by
